@@ -1276,8 +1276,8 @@ fn run_sub(c: &Case) -> Obs {
 // `lz`: every lazy accessor of bam::RecordRef::new(body) on an arbitrary body, each under its own
 // panic guard -- the observation of the Coq model NV.Bam.Lazy.lazy_view_of (panics included)
 
-/// the recorded class `lazy-cigar-cg-array-not-u32-unreachable`, decided from the bytes alone by an
-/// independent walk: the stored CIGAR is the placeholder kSmN (k = l_seq) and the first CG field of
+/// the class `lazy-cigar-cg-array-not-u32-unreachable` (repaired in /repo 3808bd7; a recurrence is a
+/// NEW failure and keeps this specific tag), decided from the bytes alone by an independent walk: the stored CIGAR is the placeholder kSmN (k = l_seq) and the first CG field of
 /// type B in the data block has a raw element length that is not a multiple of 4.
 fn cg_array_not_whole_words(body: &[u8]) -> bool {
     if body.len() < 32 {
